@@ -130,7 +130,17 @@ def run_impl(case):
         rule = SigmaCollection.from_dicts([{"title": "t", "logsource": {"category": "c"},
                                             "detection": {"sel": {"f|cidr": text}, "condition": "sel"}}])
         native = B().convert(rule)
-        return {"outcome": "ok", "text": text, "patterns": pats, "native": native}
+        # the same network in other valid spellings: the native expression must receive the normalised values all the same
+        import ipaddress
+        net = ipaddress.ip_network(text)
+        spell = [f"{net.network_address}/{net.netmask}"] if case["kind"] == "v4" else [net.exploded.upper(), net.exploded]
+        if case["p"] == (32 if case["kind"] == "v4" else 128):
+            spell.append(str(net.network_address))
+        alt = {}
+        for sp in spell:
+            r2 = SigmaCollection.from_dicts([{"title": "t", "logsource": {"category": "c"}, "detection": {"sel": {"f|cidr": sp}, "condition": "sel"}}])
+            alt[sp] = B().convert(r2)
+        return {"outcome": "ok", "text": text, "patterns": pats, "native": native, "alt": alt}
     except Exception as e:
         return {"outcome": outcome_of_exception(e), "text": text, "msg": str(e)[:100]}
 
@@ -188,6 +198,9 @@ def judge(case, impl, reply):
     want_native = [f"f|{impl['text']}|{base_text}|{p}|{mask_text}"]
     if impl["native"] != want_native:
         return Verdict("violation", f"native CIDR rendering {impl['native']} != {want_native}", nt, key, tags=tags)
+    for sp, got in impl.get("alt", {}).items():
+        if got != want_native:
+            return Verdict("violation", f"native CIDR rendering of the spelling {sp!r} of {impl['text']} is {got}, expected the normalised {want_native}", nt, key, tags=tags)
     pats = impl["patterns"]
     model = [uncps(x) for x in reply["model"]]
     if w == 32:
